@@ -144,6 +144,11 @@ func (mon *monitor) runConcurrentRPC(idx int, legKind string, goroutines, calls 
 	rng := mon.run.Rand(fmt.Sprintf("c16-concurrent-rpc-%d", idx))
 	cfg := genConfig(rng, idx*4) // rpc kind
 	cfg.Mode = "rewriting"
+	for _, sp := range cfg.all() {
+		if sp.Pad > 2000 {
+			sp.Pad = 2000 // thousands of calls: keep the traces light
+		}
+	}
 	cc := &concConfig{Index: idx, Kind: "rpc/" + legKind, Goroutines: goroutines, Calls: calls, Lists: cfg, Note: "one client object and one processor object shared by all goroutines"}
 	class := "rpc-" + legKind
 	kt := &ktracer{by: map[string][]event{}}
@@ -258,6 +263,11 @@ func (mon *monitor) runConcurrentScope(idx, goroutines, calls int) {
 	rng := mon.run.Rand(fmt.Sprintf("c16-concurrent-scope-%d", idx))
 	cfg := genConfig(rng, idx*4+3) // scope kind
 	cfg.Mode = "rewriting"
+	for _, sp := range cfg.all() {
+		if sp.Pad > 2000 {
+			sp.Pad = 2000 // thousands of calls: keep the traces light
+		}
+	}
 	cc := &concConfig{Index: idx, Kind: "scope", Goroutines: goroutines, Calls: calls, Lists: cfg, Note: "one publisher object and one subscriber object per scope shared by all goroutines"}
 	class := "scope"
 	kt := &ktracer{by: map[string][]event{}}
